@@ -775,6 +775,19 @@ def bufInitFromFile (m : Mem) (f : FileSim) (useHint : Bool) (sizeHint : Nat) : 
       | some er => fileFail er m2 b2
       | none => .ok (none, m2, b2)
 
+/-! ### aws_normalize_directory_separator (source/file.c) -/
+
+/-- `aws_is_any_directory_separator` -/
+def isDirSep (b : UInt8) : Bool := b == 92 || b == 47        -- '\\' or '/'
+
+/-- `aws_get_platform_directory_separator()` on the posix build -/
+def platformDirSep : UInt8 := 47
+
+/-- `aws_normalize_directory_separator` : bytes `[0, len)` are rewritten in place, nothing else -/
+def bufNormalizeSep (h : Heap) (b : Buf) : Except Fault Heap := do
+  let cells ← b.load h 0 b.len
+  b.store h 0 (cells.map fun c => if isDirSep (cellVal c) then some platformDirSep else c)
+
 /-! ### the operation language over named slots -/
 
 structure State where
@@ -850,6 +863,7 @@ inductive Op where
   | compareLookup (a b : Nat)
   | parseU64 (c base : Nat)               -- base 10 / 16
   | hashIgnoreCase (c : Nat)
+  | normalizeSep (b : Nat)
   | initFromFile (b : Nat) (f : FileSim) (useHint : Bool) (sizeHint : Nat)
 deriving Repr
 
@@ -1072,6 +1086,9 @@ def step (s : State) : Op → Except Fault (Res × State)
   | .parseU64 c base => do
     let (e, v) ← curParseU64 s.mem.heap (s.curs c) base
     .ok (.codeVal e v, s)
+  | .normalizeSep b => do
+    let h ← bufNormalizeSep s.mem.heap (s.bufs b)
+    .ok (.unit, (s.setHeap h).setBuf b (s.bufs b))
   | .hashIgnoreCase c => do
     let v ← curHashIgnoreCase s.mem.heap (s.curs c)
     .ok (.codeVal none v, s)
